@@ -234,3 +234,61 @@ def devirtualise(ctx, ev, outs: List[Outcome], static_cls: dict, flags: Tuple[st
                     continue
                 res.append(Outcome('return', subst(o.value, {site: o2.value}), o.guards + tuple(extra) + o2.guards, o.effects + o2.effects, o.asserts + o2.asserts, o.lineno, o.env, o.trace))
     return res
+
+
+def devirtualise_props(ctx, ev, outs: List[Outcome], flags: Tuple[str, ...] = (), limit: int = 8) -> List[Outcome]:
+    """The property counterpart of devirtualise(): a path guarded by `recv.p` where p is a property implemented at several
+    places below the class that an assertion of the path gives recv (assert isinstance(recv, C)) is split into one path per
+    implementation; the guard is replaced by that implementation's own conditions and result, the class split is stated
+    as isinstance(recv, ...) and, for the requested constant flags on which the classes of a case agree, as a test of
+    the flag."""
+    from .terms import ClassRef, norm_guards
+    res: List[Outcome] = []
+    for o in outs:
+        asserted = {}
+        for a in o.asserts:
+            for x in walk(a):
+                if isinstance(x, Call) and isinstance(x.func, Ext) and x.func.name == 'isinstance' and len(x.args) == 2 and isinstance(x.args[1], ClassRef):
+                    asserted.setdefault(x.args[0], x.args[1].name)
+        site = None
+        gs0 = tuple(norm_guards(o.guards))
+        for i, (g, pol) in enumerate(gs0):
+            if isinstance(g, Attr) and g.base in asserted:
+                base = ctx.model.classes.get(asserted[g.base])
+                if base is None:
+                    continue
+                impls = {}
+                for c in ctx.model.subclasses(base):
+                    f = c.resolve(g.name)
+                    if f is not None and f.kind == 'property':
+                        impls.setdefault(id(f), (f, []))[1].append(c)
+                if 2 <= len(impls) <= limit:
+                    site = (i, g, pol, impls)
+                    break
+        if site is None:
+            res.append(o)
+            continue
+        i, g, pol, impls = site
+        recv = g.base
+        for f, classes in impls.values():
+            typed = classes[0] if len(classes) == 1 else f.cls
+            extra: List[Guard] = [(Call(Ext('isinstance'), (recv, TupleT(tuple(ClassRef(c.name) for c in classes)))), True)]
+            for flag in flags:
+                vals = set()
+                for c in classes:
+                    pfi = c.resolve(flag)
+                    po = ev.run(pfi, {'self': Sym('self', c.name)}, self_cls=c) if pfi is not None else []
+                    vals.add(po[0].value if len(po) == 1 and po[0].kind == 'return' and isinstance(po[0].value, Const) else None)
+                if len(vals) == 1 and None not in vals:
+                    extra.append((Attr(recv, flag), bool(next(iter(vals)).value)))
+            for o2 in ev.run(f, {f.params()[0]: recv}, self_cls=typed):
+                if o2.kind != 'return':
+                    continue
+                if isinstance(o2.value, Const):
+                    if bool(o2.value.value) != pol:
+                        continue
+                    tail: Tuple[Guard, ...] = ()
+                else:
+                    tail = ((o2.value, pol),)
+                res.append(Outcome(o.kind, o.value, gs0[:i] + tuple(extra) + o2.guards + tail + gs0[i + 1:], o.effects, o.asserts + o2.asserts, o.lineno, o.env, o.trace))
+    return res
